@@ -22,17 +22,36 @@ func (p *Prog) TableCheck(pkgPath, fnspec string) (missing, assumed []string, to
 	if pkg == nil {
 		return []string{"package " + pkgPath + " not loaded"}, nil, 0
 	}
-	// reference signature: any function whose contract refines the fnspec
+	// reference signature: the signature shared by the refining functions that have
+	// exactly the fnspec's parameters and results. Helpers with extra parameters
+	// (doHash(vm, hashFactory), doOr(vm, xor), ...) also refine the fnspec but are
+	// not slot functions; taking "any refining function" made the choice depend on
+	// map iteration order and raised a false alarm when a helper was picked.
+	fs := p.FnSpecs[fnspec]
+	if fs == nil {
+		return []string{"fnspec " + fnspec + " not found"}, nil, 0
+	}
 	var ref *types.Signature
-	for k, sp := range p.Specs {
-		if !strings.HasPrefix(k, pkgPath+"::") {
-			continue
+	var keys []string
+	for k := range p.Specs {
+		if strings.HasPrefix(k, pkgPath+"::") {
+			keys = append(keys, k)
 		}
-		for _, r := range sp.Refines {
-			if r == fnspec {
-				if fn := p.FindFunc(k); fn != nil && fn.Signature.Recv() == nil {
-					ref = fn.Signature
-				}
+	}
+	sort.Strings(keys)
+	for _, k := range keys {
+		for _, r := range p.Specs[k].Refines {
+			if r != fnspec {
+				continue
+			}
+			fn := p.FindFunc(k)
+			if fn == nil || fn.Signature.Recv() != nil || fn.Signature.Params().Len() != len(fs.Params) || fn.Signature.Results().Len() != len(fs.Results) {
+				continue
+			}
+			if ref == nil {
+				ref = fn.Signature
+			} else if !types.Identical(ref, fn.Signature) {
+				return []string{"functions refining " + fnspec + " with the fnspec's arity disagree on the slot signature: " + k}, nil, 0
 			}
 		}
 	}
